@@ -1,4 +1,4 @@
 CONSTANTS MaxBases = 3  MaxRetries = 4  MaxFail = 3  Guard = "all"  AtomicFence = TRUE  Variant = "code"
 SPECIFICATION Spec
-INVARIANTS TypeOK BodyIntact Export
+INVARIANTS TypeOK BodyIntact SourceFaultFails Export
 CHECK_DEADLOCK FALSE
